@@ -158,3 +158,58 @@ Lemma pos_store_is_counter_write s b d :
   /\ b_pos (get_bar (pos_store s (ODec b d)) b) = wr_apply (WDec d) (b_pos (get_bar s b))
   /\ b_pos (get_bar (pos_store s (OSetPos b d)) b) = wr_apply (WSet d) (b_pos (get_bar s b)).
 Proof. intros Hl. cbn [pos_store]. rewrite !get_upd_same by exact Hl. repeat split. Qed.
+
+(* ------------------------------------------------------------------ part 5: two reads of one frame *)
+Lemma q_stores_run b : forall ws st,
+  q_log (q_run st (map (QStore b) ws)) = q_log st
+  /\ length (q_hist (q_run st (map (QStore b) ws)) b) = (length (q_hist st b) + length ws)%nat.
+Proof.
+  induction ws as [|w r IH]; intros st; cbn [map q_run fold_left length]; [split; [reflexivity | lia]|].
+  destruct (IH (q_step st (QStore b w))) as [A B]. fold (q_run (q_step st (QStore b w)) (map (QStore b) r)).
+  rewrite A, B. cbn [q_step q_store q_log q_hist]. rewrite fupd_same, app_length. cbn. split; [reflexivity | lia].
+Qed.
+
+(** what survives at read granularity: each of the two reads of a frame is a value the counter held
+    (an entry of the section-level history), the second read is exactly [length ws] entries later -
+    never older -, whatever ran before the frame *)
+Theorem frame_reads_real_and_ordered (c0 : N -> N) (pre : list qstep) (b : N) (ws : list wr) :
+  let st0 := q_run (q_init c0) pre in
+  let st := q_run (q_init c0) (pre ++ frame2 b ws) in
+  let i1 := Nat.pred (length (q_hist st0 b)) in
+  exists v1 v2,
+    q_log st = q_log st0 ++ [(b, i1, v1); (b, (i1 + length ws)%nat, v2)]
+    /\ nth_error (q_hist st b) i1 = Some v1
+    /\ nth_error (q_hist st b) (i1 + length ws)%nat = Some v2.
+Proof.
+  cbn zeta. rewrite q_run_app. set (st0 := q_run (q_init c0) pre).
+  pose proof (q_run_inv pre _ (q_init_inv c0)) as I0. fold st0 in I0.
+  unfold frame2. change (q_read b :: map (QStore b) ws ++ [q_read b]) with ([q_read b] ++ map (QStore b) ws ++ [q_read b]).
+  rewrite !q_run_app. set (st1 := q_run st0 [q_read b]).
+  destruct (q_stores_run b ws st1) as [A B]. set (st2 := q_run st1 (map (QStore b) ws)) in *.
+  assert (E1 : q_log st1 = q_log st0 ++ [(b, Nat.pred (length (q_hist st0 b)), q_cnt st0 b)]) by reflexivity.
+  assert (H1 : q_hist st1 = q_hist st0) by reflexivity.
+  exists (q_cnt st0 b), (q_cnt st2 b).
+  pose proof (q_run_inv (pre ++ frame2 b ws) _ (q_init_inv c0)) as [_ R _].
+  assert (Efin : q_run st2 [q_read b] = mkq (q_hist st2) (q_log st2 ++ [(b, Nat.pred (length (q_hist st2 b)), q_cnt st2 b)])) by reflexivity.
+  assert (Hne : (1 <= length (q_hist st0 b))%nat).
+  { destruct (q_hist st0 b) eqn:E; [exfalso; exact (qi_ne _ I0 b E) | cbn; lia]. }
+  assert (Eidx : Nat.pred (length (q_hist st2 b)) = (Nat.pred (length (q_hist st0 b)) + length ws)%nat).
+  { rewrite B, H1. lia. }
+  rewrite Efin. cbn [q_log q_hist]. rewrite A, E1, Eidx, <- app_assoc. cbn [app].
+  split; [reflexivity|].
+  assert (Rfin : forall i v, In (b, i, v) (q_log st0 ++ [(b, Nat.pred (length (q_hist st0 b)), q_cnt st0 b);
+                                                        (b, (Nat.pred (length (q_hist st0 b)) + length ws)%nat, q_cnt st2 b)]) ->
+                             nth_error (q_hist st2 b) i = Some v).
+  { intros i v Hin. unfold frame2 in R.
+    change (q_read b :: map (QStore b) ws ++ [q_read b]) with ([q_read b] ++ map (QStore b) ws ++ [q_read b]) in R.
+    rewrite !q_run_app in R. fold st0 st1 in R. fold st2 in R. rewrite Efin in R. cbn [q_log q_hist] in R.
+    apply R. rewrite A, E1, Eidx, <- app_assoc. exact Hin. }
+  split; apply Rfin; apply in_or_app; right; [left | right; left]; reflexivity.
+Qed.
+
+(** ... and what does NOT: the two reads of one frame can differ (one foreign inc between them) *)
+Theorem frame_single_state_refuted :
+  exists (c0 : N -> N) (b : N) (ws : list wr),
+    let st := q_run (q_init c0) (frame2 b ws) in
+    q_log st = [(b, 0%nat, 0); (b, 1%nat, 1)] /\ q_hist st b = [0; 1].
+Proof. exists (fun _ => 0), 0, [WInc 1]. vm_compute. split; reflexivity. Qed.
